@@ -170,7 +170,7 @@ void ExecImpl::op_destroy_seq(const Op& op) {
 }
 
 // ---------------- expectations ----------------
-void ExecImpl::op_expect(const Op& op) {
+void ExecImpl::op_expect(const Op& op, std::function<void()>* scope_body) {
   if (static_cast<int>(M.live_exps().size()) >= MAX_EXPS) return;
   int mock = pick(M.live_mocks(), op.a[1]);
   if (mock < 0) return;
@@ -200,6 +200,11 @@ void ExecImpl::op_expect(const Op& op) {
   }
   for (int i = 0; i < d.nseq; ++i) e.seq[i] = chosen[static_cast<size_t>(i)];
   e.order = M.clock++;
+  e.line = d.line;
+  // scoped form: in shadow stepping decided by the flag alone (the scope ends at the matching end_scope operation),
+  // in real stepping only when the caller handed us the body that runs inside the scope
+  const bool scoped = (op.a[8] & 2) && d.sline && !inverted && (shadow ? depth == 1 : scope_body != nullptr);
+  if (scoped) { e.scoped = true; e.line = d.sline; }
   nontriv("C03");
   if (inverted) {
     ++st.f_ctor_throw; ++st.p_rt_inverted;
@@ -229,7 +234,48 @@ void ExecImpl::op_expect(const Op& op) {
   for (int i = 0; i < d.nseq; ++i) { M.seqs[e.seq[i]].list.push_back(MEntry{false, e.id}); e.in_seq[i] = true; }
   M.exps.push_back(e);
   M.mocks[mock].active[d.fn].insert(M.mocks[mock].active[d.fn].begin(), e.id);
-  if (shadow) return;
+  if (shadow) { if (scoped) scope_stack.push_back(e.id); return; }
+  if (scoped) {
+    // ---- the expectation is a local of sshape_N's frame; everything up to the matching end_scope runs inside it ----
+    const int id = e.id;
+    rexps.resize(M.exps.size());
+    RExp& slot = rexps[static_cast<size_t>(id)];
+    slot.inst.reset(new Inst); slot.cell.reset(new int(1000 + id));
+    Inst& x = *slot.inst;
+    x.id = id; for (int i = 0; i < 3; ++i) x.v[i] = e.v[i];
+    x.lo = static_cast<size_t>(lo); x.hi = static_cast<size_t>(hi);
+    if (!(d.bf == BF_RT1 || d.bf == BF_RT2)) { x.lo = static_cast<size_t>(e.L < 0 ? 0 : e.L); x.hi = static_cast<size_t>(e.H < 0 ? 0 : e.H); }
+    x.snap = e.snap; x.cell = slot.cell.get();
+    for (int i = 0; i < d.nseq; ++i) x.s[i] = rseqs[chosen[static_cast<size_t>(i)]].get();
+    Obs oc, od;
+    std::vector<XRep> want_release;
+    bool entered = false;
+    std::function<void()> inner = [&]() {
+      entered = true;
+      obs_stack.pop_back();                      // creation is over
+      std::vector<XRep> none;
+      check_reports(oc, none, false, "expect (scoped form)", "C04,C15");
+      check_no_ok(oc, "expect");
+      if (!stop) { observe_flags(); state_hashes.push_back(M.hash()); }
+      if (!stop) (*scope_body)();
+      // the scope ends now: what its destructor must (not) report
+      if (!stop) want_release = release_model(id);
+      obs_stack.push_back(&od);
+    };
+    obs_stack.push_back(&oc);
+    bool threw = false;
+    try {
+      RMock& r = rmocks[static_cast<size_t>(mock)];
+      shape_fns(shape).scoped[r.kind](r.kind ? static_cast<void*>(r.m) : static_cast<void*>(r.a), x, inner);
+    } catch (...) { threw = true; }
+    obs_stack.pop_back();
+    if (stop) return;
+    if (threw || !entered) { fail("C01,C03", "expect_threw", "creating a legal expectation (scoped form) threw: " + describe_exp(id)); return; }
+    check_reports(od, want_release, false, "end of scope", "C04,C15");
+    check_no_ok(od, "end of scope");
+    if (!stop) { observe_flags(); state_hashes.push_back(M.hash()); }
+    return;
+  }
   Obs o; obs_stack.push_back(&o);
   RExp re;
   re.inst.reset(new Inst); re.cell.reset(new int(1000 + e.id));
@@ -253,7 +299,8 @@ void ExecImpl::op_expect(const Op& op) {
   check_no_ok(o, "expect");
 }
 
-void ExecImpl::release_exp(int id) {
+// model part of an expectation's end of life: what must be reported; the expectation leaves mock and sequences
+std::vector<XRep> ExecImpl::release_model(int id) {
   MExp& e = M.exps[id];
   if (e.mock >= 0 && M.mocks[static_cast<size_t>(e.mock)].moved_to) ctx_moved_mock = true;
   std::vector<XRep> want;
@@ -270,6 +317,11 @@ void ExecImpl::release_exp(int id) {
   M.leave_all_sequences(e);
   e.attached = false; e.alive = false;
   nontriv("C04");
+  return want;
+}
+
+void ExecImpl::release_exp(int id) {
+  std::vector<XRep> want = release_model(id);
   if (shadow) return;
   Obs o; obs_stack.push_back(&o);
   rexps[static_cast<size_t>(id)].ep.reset();
@@ -279,9 +331,16 @@ void ExecImpl::release_exp(int id) {
   if (!stop) { rexps[static_cast<size_t>(id)].inst.reset(); rexps[static_cast<size_t>(id)].cell.reset(); }
 }
 
+// shadow stepping only: the innermost scope ends (real stepping consumes end_scope in run_range)
+void ExecImpl::op_end_scope(const Op&) {
+  if (!shadow || scope_stack.empty()) return;
+  int id = scope_stack.back(); scope_stack.pop_back();
+  if (M.exps[static_cast<size_t>(id)].alive) release_model(id);
+}
+
 void ExecImpl::op_release(const Op& op) {
   int id = pick(M.live_exps(), op.a[0]);
-  if (id < 0 || busy_exps.count(id)) return;
+  if (id < 0 || busy_exps.count(id) || M.exps[static_cast<size_t>(id)].scoped) return;   // a scoped expectation ends with its scope only
   release_exp(id);
 }
 
@@ -291,7 +350,7 @@ void ExecImpl::op_abandon(const Op& op) {
   // newest first over expectations and monitors of that actor (scope unwinding)
   struct It { uint64_t order; bool mon; int id; };
   std::vector<It> items;
-  for (auto& e : M.exps) if (e.alive && e.actor == actor && !busy_exps.count(e.id)) items.push_back({e.order, false, e.id});
+  for (auto& e : M.exps) if (e.alive && !e.scoped && e.actor == actor && !busy_exps.count(e.id)) items.push_back({e.order, false, e.id});
   for (auto& m : M.mons) if (m.alive && m.actor == actor) items.push_back({m.order, true, m.id});
   std::sort(items.begin(), items.end(), [](const It& a, const It& b) { return a.order > b.order; });
   for (auto& it : items) {
@@ -311,7 +370,7 @@ void ExecImpl::op_mutate(const Op& op) {
 // ---------------- queries ----------------
 void ExecImpl::op_q_sat(const Op& op) {
   int id = pick(M.live_exps(), op.a[0]);
-  if (id < 0 || shadow) return;
+  if (id < 0 || shadow || !rexps[static_cast<size_t>(id)].ep) return;   // (a scoped expectation has no handle to query)
   const MExp& e = M.exps[id];
   bool s = rexps[static_cast<size_t>(id)].ep->is_satisfied(), f = rexps[static_cast<size_t>(id)].ep->is_saturated();
   if (s != e.sat() || f != e.full())
